@@ -101,7 +101,19 @@ func (h *c14Hist) materialise(env *Env) (*simrt.History, []*c14Key) {
 	for _, n := range sortedKeys(env.Std) {
 		files = append(files, simrt.FileSpec{Path: path.Join(exe, "std", n), Data: env.Std[n]})
 	}
-	files = append(files, simrt.FileSpec{Path: "/elsewhere/dir", Dir: true})
+	// an unrelated working directory that holds entries named like the things programs
+	// import: nothing may ever be resolved against the working directory
+	files = append(files, simrt.FileSpec{Path: "/elsewhere/dir", Dir: true},
+		simrt.FileSpec{Path: "/elsewhere/dir/strings", Dir: true},
+		simrt.FileSpec{Path: "/elsewhere/dir/os", Data: []byte("func Shell() string {\n\treturn \"cwd\"\n}\n")},
+		simrt.FileSpec{Path: "/elsewhere/dir/strings.tsh", Data: []byte("func Contains(a string, b string) bool {\n\treturn false\n}\n")},
+		simrt.FileSpec{Path: "/elsewhere/dir/std/strings.tsh", Data: []byte("func Contains(a string, b string) bool {\n\treturn false\n}\n")})
+	for _, f := range h.Files {
+		if !strings.Contains(f.Rel, "decoy") && len(f.Data) > 0 {
+			// same relative names as the real sources, other (valid) content
+			files = append(files, simrt.FileSpec{Path: path.Join("/elsewhere/dir", f.Rel), Data: []byte("func Other() int {\n\treturn 1\n}\nprint(\"from the working directory\")\n")})
+		}
+	}
 	b := c13Budgets()
 	out := &simrt.History{World: simrt.WorldSpec{Files: files, Cwd: cwd, Exe: path.Join(exe, "tsh"), Epoch: h.Epoch, Budgets: &b}}
 	keys := []*c14Key{}
@@ -365,7 +377,7 @@ func c14GenOdd(r *Run, rng *gen.Rng, corpus []string, oddPool []string) *c14Hist
 		case k < 90:
 			h.Steps = append(h.Steps, c14Step{Kind: "move", What: "exe", To: rng.Pick(exes)})
 		case k < 97:
-			h.Steps = append(h.Steps, c14Step{Kind: "chdir", Where: rng.Pick([]string{"mount", "parent", "root", "elsewhere"})})
+			h.Steps = append(h.Steps, c14Step{Kind: "chdir", Where: rng.Pick([]string{"mount", "parent", "root", "elsewhere", "elsewhere"})})
 		default:
 			h.Steps = append(h.Steps, c14Step{Kind: "epoch", Jump: int64(rng.Intn(1 << 20))})
 		}
